@@ -358,7 +358,7 @@ pub(crate) fn stringify_reference(
                 }
                 DisplaceData::None => {}
             }
-            if row < 1 {
+            if !(1..=LAST_ROW).contains(&row) {
                 return "#REF!".to_string();
             }
             let mut row_abs = if absolute_row {
